@@ -3,6 +3,13 @@
 
 use std::time::Duration;
 
+static PROCESS_T0: std::sync::OnceLock<u64> = std::sync::OnceLock::new();
+
+/// Monotonic time of the first call (main calls it at start).
+pub fn process_t0() -> u64 {
+    *PROCESS_T0.get_or_init(now_ns)
+}
+
 /// CLOCK_MONOTONIC nanoseconds (same clock as pgcat's verif hook events).
 pub fn now_ns() -> u64 {
     let mut ts = libc::timespec {
@@ -154,6 +161,7 @@ mod t {
 // for reasons that have nothing to do with the servers' health. Such stretches are recorded here,
 // and verdicts that depend on real time are not issued for them (they count as not observed).
 static STALLS: std::sync::Mutex<Vec<(u64, u64)>> = std::sync::Mutex::new(Vec::new());
+static PRESSURE: std::sync::Mutex<Vec<(u64, u64)>> = std::sync::Mutex::new(Vec::new());
 static MONITOR_STARTED: std::sync::atomic::AtomicBool = std::sync::atomic::AtomicBool::new(false);
 
 pub fn start_stall_monitor() {
@@ -166,6 +174,22 @@ pub fn start_stall_monitor() {
             let t0 = now_ns();
             std::thread::sleep(std::time::Duration::from_millis(5));
             let dt = now_ns() - t0;
+            {
+                // machine-wide CPU pressure (PSI): cumulative microseconds during which at least one
+                // runnable task was waiting for a CPU
+                let mut p = PRESSURE.lock().unwrap();
+                if p.last().map(|l| t0 - l.0 >= 50_000_000).unwrap_or(true) {
+                    if let Some(total) = std::fs::read_to_string("/proc/pressure/cpu").ok().and_then(|s| {
+                        s.lines().next().and_then(|l| l.split("total=").nth(1).and_then(|v| v.trim().parse::<u64>().ok()))
+                    }) {
+                        p.push((now_ns(), total));
+                        let n = p.len();
+                        if n > 200_000 {
+                            p.drain(..n - 100_000);
+                        }
+                    }
+                }
+            }
             if dt > 40_000_000 {
                 let mut g = STALLS.lock().unwrap();
                 g.push((t0, dt - 5_000_000));
@@ -181,4 +205,16 @@ pub fn start_stall_monitor() {
 /// Longest scheduling delay (ms) this process observed between t0 and t1 (monotonic ns).
 pub fn max_stall_ms(t0: u64, t1: u64) -> u64 {
     STALLS.lock().unwrap().iter().filter(|(t, d)| *t + *d >= t0 && *t <= t1).map(|(_, d)| d / 1_000_000).max().unwrap_or(0)
+}
+
+/// Share of the interval t0..t1 (percent) during which some runnable task on the machine was waiting
+/// for a CPU (Linux pressure-stall information); 0 if PSI is unavailable or the interval is too short.
+pub fn cpu_pressure_pct(t0: u64, t1: u64) -> u64 {
+    let p = PRESSURE.lock().unwrap();
+    let a = p.iter().rev().find(|s| s.0 <= t0).or(p.first());
+    let b = p.iter().rev().find(|s| s.0 <= t1);
+    match (a, b) {
+        (Some(a), Some(b)) if b.0 > a.0 + 100_000_000 => ((b.1 - a.1) * 1000 * 100 / (b.0 - a.0)).min(100),
+        _ => 0,
+    }
 }
